@@ -119,6 +119,52 @@ impl Drop for TVal {
     }
 }
 
+/// Plain value without a destructor (`needs_drop::<PVal>()` is false): judged by content and
+/// address only, it never appears in the drop ledger.
+#[derive(Debug, Clone, Copy)]
+pub struct PVal {
+    magic: u64,
+    id: u64,
+    #[allow(dead_code)]
+    step: u32,
+}
+const PLAIN_BASE: u64 = 3_000_000;
+
+trait Val: std::fmt::Debug + Sized + 'static {
+    const TRACKED: bool;
+    fn make(step: u32) -> Self;
+    fn magic(&self) -> u64;
+    fn id(&self) -> u64;
+}
+impl Val for TVal {
+    const TRACKED: bool = true;
+    fn make(step: u32) -> Self {
+        TVal::new(step)
+    }
+    fn magic(&self) -> u64 {
+        self.magic
+    }
+    fn id(&self) -> u64 {
+        self.id
+    }
+}
+impl Val for PVal {
+    const TRACKED: bool = false;
+    fn make(step: u32) -> Self {
+        let id = led(|l| {
+            l.next += 1;
+            PLAIN_BASE + l.next
+        });
+        PVal { magic: VAL_MAGIC, id, step }
+    }
+    fn magic(&self) -> u64 {
+        self.magic
+    }
+    fn id(&self) -> u64 {
+        self.id
+    }
+}
+
 trait Seed: Default + 'static {
     const TRACKED: bool;
     const DROP_PANICS: bool;
@@ -146,16 +192,26 @@ impl Seed for PSeed {
     }
 }
 
-/// (name, seed type index, constructor: 0 new, 1 Default, 2 with_value)
-const COMBOS: [(&str, u8, u8); 8] = [
-    ("u32-new", 0, 0),
-    ("tracked-new", 1, 0),
-    ("dtorpanic-new", 2, 0),
-    ("u32-default", 0, 1),
-    ("tracked-default", 1, 1),
-    ("dtorpanic-default", 2, 1),
-    ("tracked-with_value", 1, 2),
-    ("u32-with_value", 0, 2),
+/// (name, seed type index, constructor: 0 new, 1 Default, 2 with_value, value type: 0 tracked
+/// Drop value, 1 plain value without destructor). Both `needs_drop::<U>()` answers are exercised
+/// with both value kinds. New combinations are appended so that recorded indices stay valid.
+const COMBOS: [(&str, u8, u8, u8); 16] = [
+    ("u32-new", 0, 0, 0),
+    ("tracked-new", 1, 0, 0),
+    ("dtorpanic-new", 2, 0, 0),
+    ("u32-default", 0, 1, 0),
+    ("tracked-default", 1, 1, 0),
+    ("dtorpanic-default", 2, 1, 0),
+    ("tracked-with_value", 1, 2, 0),
+    ("u32-with_value", 0, 2, 0),
+    ("u32-new/plain-value", 0, 0, 1),
+    ("tracked-new/plain-value", 1, 0, 1),
+    ("dtorpanic-new/plain-value", 2, 0, 1),
+    ("u32-default/plain-value", 0, 1, 1),
+    ("tracked-default/plain-value", 1, 1, 1),
+    ("dtorpanic-default/plain-value", 2, 1, 1),
+    ("tracked-with_value/plain-value", 1, 2, 1),
+    ("u32-with_value/plain-value", 0, 2, 1),
 ];
 /// step alphabet: get_or_try_init{Ok,Err,panic}, get_or_init{Ok,panic}
 const SYM: [&str; 5] = ["tOk", "tErr", "tPanic", "iOk", "iPanic"];
@@ -174,37 +230,40 @@ struct Model {
 }
 
 fn run_case(combo: usize, steps: &[u8], ctx: &mut Ctx) {
-    match COMBOS[combo].1 {
-        0 => run_typed::<u32>(combo, steps, ctx),
-        1 => run_typed::<TSeed>(combo, steps, ctx),
-        _ => run_typed::<PSeed>(combo, steps, ctx),
+    match (COMBOS[combo].1, COMBOS[combo].3) {
+        (0, 0) => run_typed::<u32, TVal>(combo, steps, ctx),
+        (1, 0) => run_typed::<TSeed, TVal>(combo, steps, ctx),
+        (_, 0) => run_typed::<PSeed, TVal>(combo, steps, ctx),
+        (0, _) => run_typed::<u32, PVal>(combo, steps, ctx),
+        (1, _) => run_typed::<TSeed, PVal>(combo, steps, ctx),
+        (_, _) => run_typed::<PSeed, PVal>(combo, steps, ctx),
     }
 }
 
-fn run_typed<U: Seed>(combo: usize, steps: &[u8], ctx: &mut Ctx) {
+fn run_typed<U: Seed, V: Val>(combo: usize, steps: &[u8], ctx: &mut Ctx) {
     let short = short_of(combo, steps);
     ctx.progress(&short);
     let case = json!({"combo": combo, "steps": steps});
     led(|l| *l = Ledger::default());
     let mut viol: Vec<(&'static str, String)> = vec![];
     let ctor = COMBOS[combo].2;
-    let cell: OnceInitCell<U, TVal> = match ctor {
+    let cell: OnceInitCell<U, V> = match ctor {
         0 => OnceInitCell::new(U::default()),
         1 => Default::default(),
-        _ => OnceInitCell::with_value(TVal::new(999)),
+        _ => OnceInitCell::with_value(V::make(999)),
     };
     let mut model = Model { init: None, executed: 0 };
     if ctor == 2 {
         match cell.get() {
-            Some(v) => model.init = Some((v as *const TVal as usize, v.id)),
+            Some(v) => model.init = Some((v as *const V as usize, v.id())),
             None => viol.push(("get_state", "with_value(..).get() is None".into())),
         }
     }
     let mut trace: Vec<String> = vec![];
     let check_state = |model: &Model, at: &str, viol: &mut Vec<(&'static str, String)>| {
-        let before = cell.get().map(|v| (v as *const TVal as usize, v.magic, v.id));
+        let before = cell.get().map(|v| (v as *const V as usize, v.magic(), v.id()));
         let dbg = format!("{cell:?}");
-        let after = cell.get().map(|v| (v as *const TVal as usize, v.magic, v.id));
+        let after = cell.get().map(|v| (v as *const V as usize, v.magic(), v.id()));
         if before != after {
             viol.push(("debug_disturbs", format!("{at}: get() was {before:?} before and {after:?} after formatting with Debug")));
         }
@@ -223,8 +282,8 @@ fn run_typed<U: Seed>(combo: usize, steps: &[u8], ctx: &mut Ctx) {
             (Some(_), None) => viol.push(("get_state", format!("{at}: get() is None although an initialiser has succeeded"))),
         }
         let (alive_seeds, alive_vals, bogus) = led(|l| (l.seeds.values().filter(|&&c| c == 0).count(), l.vals.values().filter(|&&c| c == 0).count(), l.bogus.clone()));
-        let want_vals = model.init.is_some() as usize;
-        let want_seeds = if U::TRACKED && ctor != 2 { 1 - want_vals } else { 0 };
+        let want_vals = if V::TRACKED { model.init.is_some() as usize } else { 0 };
+        let want_seeds = if U::TRACKED && ctor != 2 { 1 - model.init.is_some() as usize } else { 0 };
         if alive_seeds != want_seeds || alive_vals != want_vals {
             viol.push(("alive_count", format!("{at}: {alive_seeds} seed(s) and {alive_vals} value(s) alive, expected {want_seeds} and {want_vals}")));
         }
@@ -238,14 +297,14 @@ fn run_typed<U: Seed>(combo: usize, steps: &[u8], ctx: &mut Ctx) {
         let seen = Cell::new(None::<u32>);
         let made = Cell::new(None::<u64>);
         let i32_ = i as u32;
-        let body = |u: &mut U, outcome: u8| -> Result<TVal, u32> {
+        let body = |u: &mut U, outcome: u8| -> Result<V, u32> {
             ran.set(ran.get() + 1);
             seen.set(Some(*u.counter()));
             *u.counter() += 1;
             match outcome {
                 0 => {
-                    let v = TVal::new(i32_);
-                    made.set(Some(v.id));
+                    let v = V::make(i32_);
+                    made.set(Some(v.id()));
                     Ok(v)
                 }
                 1 => Err(1000 + i32_),
@@ -254,9 +313,9 @@ fn run_typed<U: Seed>(combo: usize, steps: &[u8], ctx: &mut Ctx) {
         };
         // Ok(Ok(addr)) | Ok(Err(e)) | Err(panic payload)
         let r: Result<Result<usize, u32>, String> = catch_unwind(AssertUnwindSafe(|| match sym {
-            0 | 1 | 2 => cell.get_or_try_init(|u| body(u, sym)).map(|v| v as *const TVal as usize),
-            3 => Ok(cell.get_or_init(|u| body(u, 0).unwrap()) as *const TVal as usize),
-            _ => Ok(cell.get_or_init(|u| body(u, 2).unwrap()) as *const TVal as usize),
+            0 | 1 | 2 => cell.get_or_try_init(|u| body(u, sym)).map(|v| v as *const V as usize),
+            3 => Ok(cell.get_or_init(|u| body(u, 0).unwrap()) as *const V as usize),
+            _ => Ok(cell.get_or_init(|u| body(u, 2).unwrap()) as *const V as usize),
         }))
         .map_err(|p| payload(&p));
         let at = format!("step {i} ({})", SYM[sym as usize]);
@@ -285,7 +344,7 @@ fn run_typed<U: Seed>(combo: usize, steps: &[u8], ctx: &mut Ctx) {
             match outcome {
                 0 => {
                     // success: value kept; with a panicking seed destructor the call may report that panic
-                    let got = cell.get().map(|v| (v as *const TVal as usize, v.id));
+                    let got = cell.get().map(|v| (v as *const V as usize, v.id()));
                     match (&r, got) {
                         (Ok(Ok(a)), Some((b, id))) if *a == b && Some(id) == made.get() => model.init = Some((b, id)),
                         (Err(p), Some((b, id))) if U::DROP_PANICS && p == "seed-dtor" && Some(id) == made.get() => model.init = Some((b, id)),
@@ -336,7 +395,7 @@ fn run_typed<U: Seed>(combo: usize, steps: &[u8], ctx: &mut Ctx) {
     }
     ctx.res.evaluations += 1;
     ctx.res.traces_validated += 1;
-    ctx.res.outcome(&(COMBOS[combo].1, ctor, outcome_sig(steps, U::DROP_PANICS), dr.is_ok()));
+    ctx.res.outcome(&(COMBOS[combo].1, COMBOS[combo].3, ctor, outcome_sig(steps, U::DROP_PANICS), dr.is_ok()));
     if ctx.verbose {
         println!("case {short}");
         for t in &trace {
@@ -400,7 +459,7 @@ pub fn plan(args: &Args) -> Plan<'_> {
         }),
         run: Box::new(move |i, ctx| {
             if ctx.res.bound.is_empty() {
-                ctx.res.bound = format!("every sequence of <= {ml} calls over {{get_or_try_init: Ok, Err, panic; get_or_init: Ok, panic}} x {} cell constructions (seed u32 / tracked Drop / destructor panics; new, Default, with_value); get(), Debug and the drop ledger checked after every call", COMBOS.len());
+                ctx.res.bound = format!("every sequence of <= {ml} calls over {{get_or_try_init: Ok, Err, panic; get_or_init: Ok, panic}} x {} cell constructions (seed u32 / tracked Drop / destructor panics x value tracked Drop / plain without destructor; new, Default, with_value); get(), Debug and the drop ledger checked after every call", COMBOS.len());
                 ctx.res.rule = "cases = (construction, call sequence), enumerated by length then lexicographically; distinct = (seed type, constructor, index of the initialising call, per-call answer class)".into();
             }
             let (len, combo, first) = us[i];
